@@ -3,6 +3,7 @@ import TakVerif.Proofs.TPSWF
 import TakVerif.Proofs.SpecConserve
 import TakVerif.Proofs.ApplyCfg
 import TakVerif.Proofs.PosFactsInst
+import TakVerif.Proofs.FromSquares
 
 /-! The `k`-th image rebuilt by `Symmetries` (`At` on every square, `FromSquares` on the permuted board)
 shows the list-level image `Sym.state k (abs p)`, for every position of a default game that satisfies C01's
@@ -278,5 +279,81 @@ theorem imageFact_invD (basis : Array W) : ImageFact basis (InvD basis) := by
     have e : Spec.abs q = { Sym.state k (Spec.abs p) with squares := (Spec.abs q).squares } := by
       simp only [Spec.abs, Sym.state, hqcfg, hmove, r1, r2, r3, r4]
     rw [e, hsquares]
+
+theorem totals_start : ∀ n ∈ [3, 4, 5, 6, 7, 8], Totals (startState n) := by
+  have key : ∀ n ∈ [3, 4, 5, 6, 7, 8],
+      (decide (SpecProofs.total Color.white false (startState n) = Facts.defaultPieces.getD n 0) &&
+       decide (SpecProofs.total Color.white true (startState n) = Facts.defaultCaps.getD n 0) &&
+       decide (SpecProofs.total Color.black false (startState n) = Facts.defaultPieces.getD n 0) &&
+       decide (SpecProofs.total Color.black true (startState n) = Facts.defaultCaps.getD n 0)) = true := by decide
+  intro n hn
+  have := key n hn
+  simp only [Bool.and_eq_true, decide_eq_true_eq] at this
+  exact ⟨this.1.1.1, this.1.1.2, this.1.2, this.2⟩
+
+/-- **`PosFacts2` for the invariant with conservation of pieces**, default games up to 6×6 -/
+theorem posFacts2_defaultD (basis : Array W) (size : Nat) (hs : size ≤ 6) :
+    PosFacts2 basis size (InvD basis) OkM where
+  new := by
+    intro p h
+    have F := posFacts2_default basis size hs
+    obtain ⟨w, b⟩ := F.new p h
+    obtain ⟨s1, s8⟩ := new_size_ok h
+    have h3 : 3 ≤ size := by have := w.size_ge; rw [s1] at this; exact this
+    have hmem : size ∈ [3, 4, 5, 6, 7, 8] := by simp; omega
+    have ha := abs_new size hmem
+    rw [h] at ha
+    simp only at ha
+    refine ⟨w, b, ?_, ?_⟩
+    · -- the configuration `New` stores
+      unfold Pos.new at h
+      by_cases e1 : size ≥ Facts.defaultPieces.length
+      · simp [e1] at h
+      · by_cases e2 : size < 3 ∨ size > 8
+        · simp [e1, e2] at h
+        · simp only [e1, e2, if_false] at h
+          cases h
+          simp [defCfg]
+    · rw [ha]; exact totals_start size hmem
+  apply := by
+    intro p m p' hi hok ha
+    have F := posFacts2_default basis size hs
+    obtain ⟨⟨w', b'⟩, hsz, hstep⟩ := F.apply p m p' ⟨hi.1, hi.2.1⟩ hok ha
+    have hcfg' : p'.cfg = p.cfg := apply_cfg ha
+    have hwf : (Spec.abs p).squares.length = (Spec.abs p).size * (Spec.abs p).size := by simp [Spec.abs]
+    have hsize : (Spec.abs p').size = (Spec.abs p).size := by show p'.cfg.size = p.cfg.size; rw [hcfg']
+    obtain ⟨t1, t2, t3, t4⟩ := hi.2.2.2
+    refine ⟨⟨w', b', by rw [hcfg']; exact hi.2.2.1, ?_⟩, hsz, hstep⟩
+    refine ⟨?_, ?_, ?_, ?_⟩
+    · rw [step_conserves _ _ _ _ _ hwf hstep, hsize]; exact t1
+    · rw [step_conserves _ _ _ _ _ hwf hstep, hsize]; exact t2
+    · rw [step_conserves _ _ _ _ _ hwf hstep, hsize]; exact t3
+    · rw [step_conserves _ _ _ _ _ hwf hstep, hsize]; exact t4
+  complete := fun p m s' hi hok h => (posFacts2_default basis size hs).complete p m s' ⟨hi.1, hi.2.1⟩ hok h
+  hash_abs := fun p q hp hq h => (posFacts2_default basis size hs).hash_abs p q ⟨hp.1, hp.2.1⟩ ⟨hq.1, hq.2.1⟩ h
+  ok_of_legal := fun p m hi h => (posFacts2_default basis size hs).ok_of_legal p m ⟨hi.1, hi.2.1⟩ h
+
+/-- the piece budget is the same for a state and its images -/
+theorem budget_state (k : Sym) {s : State} (hs : s.WF) : budget (Sym.state k s) = budget s := by
+  unfold budget total
+  rw [((Sym.state_squares_perm k hs).map List.length).sum_nat]
+  rfl
+
+/-- the rebuilt image of a position of the invariant satisfies C01's invariant and the budget -/
+theorem image_wf (basis : Array W) (p q : Pos) (k : Fin 8) (hp : InvD basis p) (hq : imagePos basis p k = .ok q) :
+    WF basis q ∧ budget (Spec.abs q) ≤ 64 := by
+  have himg := imageFact_invD basis p k q hp hq
+  constructor
+  · unfold imagePos at hq
+    rw [imageBoard_eq (atOK_of_wf hp.1) hp.1.size_le k] at hq
+    simp only [bind, Except.bind] at hq
+    apply fromSquares_wf basis _ _ _ q hp.1.move_nonneg _ hq
+    intro sq hsq
+    simp only [List.mem_map, List.mem_range] at hsq
+    obtain ⟨j, _, rfl⟩ := hsq
+    simp only [List.length_map]
+    exact squareAt_length_le hp.1 _
+  · rw [himg, budget_state k (by simp [State.WF, Spec.abs])]
+    exact hp.2.1
 
 end Tak
